@@ -30,7 +30,8 @@ RULE = (
     "nesting chains to depth 200, texts of 4 KiB..300 KB around buffer-size boundaries, documented rich types Path/date/"
     "time/datetime/set/complex/tuple, custom json_default extensions incl. one that overrides eliot's encoding of set/"
     "complex/Path; consecutive messages that are equal in Python but different JSON (0.0/-0.0, 1/True/1.0) and the same "
-    "dict object offered again after an in-place change) x file flavour (real temp file 'ab', 'a' utf-8, unbuffered 'wb', BytesIO, StringIO, TextIOWrapper) "
+    "dict object offered again after an in-place change) x file flavour (real temp file 'ab', 'a' utf-8, unbuffered 'wb', BytesIO, StringIO, TextIOWrapper, codecs.open / codecs.getwriter text files "
+    "whose forwarded .mode says 'wb', SpooledTemporaryFile binary/text; optionally one flush() that fails with BlockingIOError after the line was accepted) "
     "x default/custom json_default. Non-trivial: the messages contain a non-ASCII or control character, a boundary "
     "number, nesting >= 3, or a rich type. Distinct = distinct canonical JSON of the case."
 )
@@ -40,16 +41,26 @@ ASSUMPTIONS = [
     "timezone-aware datetime.time values are excluded by construction (open known finding F8) and reproduced separately",
 ]
 
-FILE_KINDS = ["tmp_ab", "tmp_a", "tmp_wb0", "bytesio", "stringio", "textio"]
+FILE_KINDS = ["tmp_ab", "tmp_a", "tmp_wb0", "bytesio", "stringio", "textio", "codecs_open", "codecs_writer", "spooled_b", "spooled_t"]
+BINARY_KINDS = ("tmp_ab", "tmp_wb0", "bytesio", "spooled_b")
 
 
 class Proxy(object):
     """Records every call made on the file object and forwards it."""
 
-    def __init__(self, real):
+    def __init__(self, real, flaky_flush=None):
         self._real = real
         self.calls = []
         self.held = []
+        self.flushes = 0
+        self.flaky_flush = flaky_flush
+        self.injected = None
+
+    def __getattr__(self, name):
+        # like most file wrappers (codecs, tempfile), other attributes come from the wrapped file
+        if name.startswith("__"):
+            raise AttributeError(name)
+        return getattr(self._real, name)
 
     def write(self, data):
         # keep what was handed over (by reference) and a snapshot of its content at call time:
@@ -61,6 +72,11 @@ class Proxy(object):
 
     def flush(self):
         self.calls.append(("flush",))
+        self.flushes += 1
+        if self.flaky_flush is not None and self.flushes == self.flaky_flush:
+            # a non-blocking pipe whose reader has fallen behind: the line stays in the buffer
+            self.injected = BlockingIOError(11, "write could not complete without blocking")
+            raise self.injected
         return self._real.flush()
 
 
@@ -125,6 +141,21 @@ def _open(kind, tmpdir):
         f = io.StringIO(newline="\n")
     elif kind == "textio":
         f = io.TextIOWrapper(io.BytesIO(), encoding="utf-8", newline="\n")
+    elif kind == "codecs_open":
+        # a text file (write() takes str) whose .mode, forwarded from the underlying stream, says "wb"
+        import codecs
+
+        path = os.path.join(tmpdir, "log")
+        f = codecs.open(path, "w", "utf-8")
+    elif kind == "codecs_writer":
+        import codecs
+
+        path = os.path.join(tmpdir, "log")
+        f = codecs.getwriter("utf-8")(open(path, "wb"))
+    elif kind == "spooled_b":
+        f = tempfile.SpooledTemporaryFile(max_size=1 << 14, mode="w+b")
+    elif kind == "spooled_t":
+        f = tempfile.SpooledTemporaryFile(max_size=1 << 14, mode="w+", encoding="utf-8", newline="\n")
     else:
         raise ValueError(kind)
     return f, path
@@ -140,6 +171,10 @@ def _content(kind, f, path):
         return f.getvalue().encode("utf-8")
     if kind == "textio":
         return f.buffer.getvalue()
+    if kind in ("spooled_b", "spooled_t"):
+        f.seek(0)
+        data = f.read()
+        return data if isinstance(data, bytes) else data.encode("utf-8")
 
 
 def _sanitize(v, counter):
@@ -175,13 +210,13 @@ def _check(case):
     with tempfile.TemporaryDirectory(prefix="c10-") as tmpdir:
         f, path = _open(kind, tmpdir)
         try:
-            proxy = Proxy(f)
+            proxy = Proxy(f, case.get("flaky_flush"))
             dest = FileDestination(file=proxy, **kwargs)
             # the other mode, for the cross-mode clause
-            other_real = io.StringIO(newline="\n") if kind in ("tmp_ab", "tmp_wb0", "bytesio") else io.BytesIO()
+            other_real = io.StringIO(newline="\n") if kind in BINARY_KINDS else io.BytesIO()
             other = Proxy(other_real)
             other_dest = FileDestination(file=other, **kwargs)
-            binary = kind in ("tmp_ab", "tmp_wb0", "bytesio")
+            binary = kind in BINARY_KINDS
             for p in (proxy, other):
                 for c in p.calls:
                     require(
@@ -205,7 +240,14 @@ def _check(case):
                     previous = (message, dict(spec)) if isinstance(spec, dict) and isinstance(spec.get("nest"), list) else None
                 snapshot = canon(spec)
                 try:
-                    dest(message)
+                    try:
+                        dest(message)
+                    except BlockingIOError as e:
+                        # the file's own failure may reach the caller (Destinations.send reports it); the line was
+                        # handed over once all the same
+                        if e is not proxy.injected:
+                            raise
+                        proxy.injected = None
                     other_dest(V.decode(spec) if message is not (previous or [None])[0] else dict(message))
                 except Exception as e:
                     raise Violation("raised", "FileDestination raised %r for message %s" % (e, canon(spec)[:300]))
@@ -263,6 +305,8 @@ def _check(case):
             for ref, snap in proxy.held + other.held:
                 now = bytes(ref) if isinstance(ref, (bytes, bytearray, memoryview)) else ref
                 require(now == snap, "write-argument-mutated", lambda: "an object handed to file.write() was changed afterwards: %r -> %r" % (snap[:80], now[:80]))
+            if case.get("flaky_flush"):
+                f.flush()
             content = _content(kind, f, path)
             require(content == expected_total, "file-content", lambda: "file holds %r, writes were %r" % (content[:200], expected_total[:200]))
         finally:
@@ -276,6 +320,8 @@ def _check(case):
 def classify(case, info):
     feats = V.features(case["msgs"])
     labels = ["file:" + case["file"], "default:" + case["default"]]
+    if case.get("flaky_flush"):
+        labels.append("one-flush-would-block")
     if info and info.get("excluded_f9"):
         labels.append("excluded-by-construction:F9")
     if feats["nonascii"]:
@@ -352,8 +398,9 @@ def strategy():
     # small draws first: a large message list must not starve the later draws
     return st.one_of(
         st.builds(
-            lambda f, picks, msgs: {"msgs": with_twins(msgs, picks), "file": f, "default": "eliot"},
+            lambda f, flaky, picks, msgs: {"msgs": with_twins(msgs, picks), "file": f, "default": "eliot", "flaky_flush": flaky},
             st.sampled_from(FILE_KINDS),
+            st.sampled_from([None, None, None, 1, 2, 3]),
             st.lists(st.sampled_from([0, 0, 1, 1, 2, 3]), max_size=4),
             st.lists(st.one_of(message_specs(False), st.dictionaries(V.keys(), st.sampled_from([0, 0.0, -0.0, 1, True, 1.0, 3, 3.0, [0.0], {"z": 1}]), min_size=1, max_size=3)), min_size=1, max_size=4),
         ),
